@@ -108,6 +108,60 @@ def gas_part(ctx, quick):
     return {"gas_model_states": g.distinct, "gas_patterns": len(by), "gas_lists_realised": n, "gas_drift": info.get("drift")}
 
 
+def filter_part(ctx, quick):
+    """Filter.tla: the proposer's filter attempts and SKIPS transactions (at validation: a conflict with an earlier transaction
+    of the block; at application: the follow-ups queued behind a refused transaction) and must leave nothing of them in its check
+    state.  TLC checks FilterLeavesNoTrace on every offer pattern (cause x follow-ups x account situation of the sender x epoch),
+    a deliberately broken filter must violate it, and every pattern is realised with real transactions through the real pools and
+    ProposeBlock; the blocks are judged by every replica like all others (ProposedAccepted)."""
+    import collections
+    f = chainlib.model_run(ctx, "MC_Filter.tla", "MC_Filter.cfg", workers=2)
+    fb = vlib.tlc(ctx, "MC_Filter.tla", "MC_Filter_bug_rollover.cfg", workers=2, timeout=600, want_exports=False)
+    if fb.ok or fb.invariant != "FilterLeavesNoTrace":
+        raise vlib.CheckError("specification self-test failed: the filter with Bug=rollover does not violate FilterLeavesNoTrace")
+    cases = sorted(f.exports, key=lambda e: json.dumps(e, sort_keys=True))
+    if len(cases) < 40:
+        raise vlib.CheckError("Filter model exported only %d offer patterns (vacuous bounds)" % len(cases))
+    cfile = ctx.path("filtercases.json")
+    with open(cfile, "w") as fo:
+        for c in cases:
+            fo.write(json.dumps(c) + "\n")
+    drv = vlib.build_driver(ctx, "d_chain", clocks=chainlib.CLOCKS)
+    trace = ctx.path("filter.ndjson")
+    p = vlib.run_driver(ctx, drv, ["-out", trace, "-filter", cfile], timeout=3000)
+    if p.returncode != 0:
+        vlib.driver_failure(ctx, p.stdout, "driver failed on the filter scenarios")
+    rows = vlib.read_ndjson(trace)
+
+    def describe_filter(clause, row, rows_, line):
+        bad = {k: v for k, v in row.get("verdicts", {}).items() if v != "ok"}
+        nxt = next((x for x in rows_[line:] if x.get("ev") == "FilterCase" and x.get("hid") == row.get("hid")), {})
+        cs = nxt.get("case") or {}
+        errs = sorted(set(bad.values()))
+        key = "ProposedAccepted:filter:%s:%s:%s" % (cs.get("cause", "leftovers"), cs.get("acct", "-"), "|".join(e[:40] for e in errs))
+        what = ("filter scenario %s (%s): the honest proposer's block built from a pool holding %s was refused by in-sync replica(s) %s; the filter "
+                "included %s and skipped %s of the submitted transactions" % (row.get("hid"), json.dumps(cs), json.dumps(nxt.get("modelOffer")),
+                                                                              json.dumps(bad), json.dumps(nxt.get("included")), nxt.get("skipped")))
+        return key, what
+    chainlib.validate(ctx, trace, "Trace_Replicas.tla", "Trace_Replicas.cfg", MINE, "C02", describe_filter)
+    real = collections.Counter()
+    for x in rows:
+        if x.get("ev") == "FilterCase" and x.get("skipped", 0) > 0:
+            cs = x["case"]
+            real[cs["cause"]] += 1
+            real["acct:" + cs["acct"]] += 1
+            real["epoch:" + cs["epoch"]] += 1
+            if x["skipped"] >= 2:
+                real["skipped-at-application"] += 1
+    dead = [k for k in ("double-invite", "killed-invitee", "self-kill", "overspend", "acct:stale", "acct:fresh", "acct:current", "epoch:e1", "skipped-at-application") if not real[k]]
+    if dead:
+        raise vlib.CheckError("filter scenarios: never realised a skip of class %s (dead scenario); realised %s" % (dead, dict(real)))
+    n = sum(1 for x in rows if x.get("ev") == "FilterCase")
+    ctx.log("filter: %d model states, %d offer patterns, %d realised on real chains (%d with skips), broken filter rejected by the model"
+            % (f.distinct, len(cases), n, sum(1 for x in rows if x.get("ev") == "FilterCase" and x.get("skipped", 0) > 0)))
+    return {"filter_model_states": f.distinct, "filter_patterns": len(cases), "filter_cases_realised": n, "filter_skips_realised": dict(real)}
+
+
 def main(ctx):
     quick = ctx.tier == "quick"
     r, sched, samples = export_schedules(ctx, 8 if quick else 64)
@@ -135,8 +189,9 @@ def main(ctx):
     vlib.write_ndjson(st_trace, [x for x in rows if x.get("hid") != 900][:80])
     selftest_reject(ctx, "Trace_Replicas.tla", "Trace_Replicas.cfg", st_trace, mutate, n_lines=60)
     gcov = gas_part(ctx, quick)
+    fcov = filter_part(ctx, quick)
     cov = {"states": r.distinct, "transitions": r.generated,
-           "traces_validated_against_impl": stats.get("histories", 0), **gcov,
+           "traces_validated_against_impl": stats.get("histories", 0), **gcov, **fcov,
            "proposals": len(blocks), "txs_offered": offered, "txs_included": included, "tx_types_included": types_in,
            "samples": [{k: blocks[len(blocks) // 2].get(k) for k in ("h", "kind", "flags", "proposer", "verdicts", "hists")}],
            "rule": "every block produced by ProposeBlock / GenerateEmptyBlock on a real node from a seeded hostile mempool mix is "
